@@ -230,10 +230,7 @@ func init() {
 	})
 	regA("Mul", func(ex *Exec, a []Value, c *ssa.CallCommon) Value {
 		x, y := bigArg(ex, a[1]), bigArg(ex, a[2])
-		xlo, xhi := ex.bounds(x)
-		ylo, yhi := ex.bounds(y)
-		lo, hi := mulInterval(xlo, xhi, ylo, yhi)
-		return setBig(ex, a[0], IntV{T: Mul(x.T, y.T), Lo: lo, Hi: hi})
+		return setBig(ex, a[0], ex.bigMul(x, y))
 	})
 	regA("Neg", func(ex *Exec, a []Value, c *ssa.CallCommon) Value { return setBig(ex, a[0], ex.bigNeg(bigArg(ex, a[1]))) })
 	regA("Abs", func(ex *Exec, a []Value, c *ssa.CallCommon) Value { return setBig(ex, a[0], ex.bigAbs(bigArg(ex, a[1]))) })
@@ -930,4 +927,42 @@ func condStringIndex(ex *Exec) int {
 		}
 	}
 	return 0
+}
+
+// bigMul multiplies two Level-A integers. A product of two symbolic values is abstracted
+// by a fresh variable constrained by its interval and its zero-ness (a sound
+// over-approximation that keeps the queries linear); the defining equation is kept in
+// ex.defs and conjoined whenever a model is needed or an assertion fails under the
+// abstraction, so that no spurious counterexample is ever reported.
+func (ex *Exec) bigMul(x, y IntV) IntV {
+	xlo, xhi := ex.bounds(x)
+	ylo, yhi := ex.bounds(y)
+	lo, hi := mulInterval(xlo, xhi, ylo, yhi)
+	if x.IsConst() || y.IsConst() || ex.Opt.Params["exactMul"] == "1" {
+		return IntV{T: Mul(x.T, y.T), Lo: lo, Hi: hi}
+	}
+	exact := Mul(x.T, y.T)
+	if ex.prodMemo == nil {
+		ex.prodMemo = map[*Term]*Term{}
+	}
+	p, ok := ex.prodMemo[exact]
+	if !ok {
+		p = ex.freshVar("prod", SInt)
+		ex.prodMemo[exact] = p
+		ex.defs = append(ex.defs, Eq(p, exact))
+		if lo != nil {
+			ex.assumeT(Le(IntConst(lo), p))
+		}
+		if hi != nil {
+			ex.assumeT(Le(p, IntConst(hi)))
+		}
+		zero := IntConst64(0)
+		ex.assumeT(Eq(Eq(p, zero), Or(Eq(x.T, zero), Eq(y.T, zero))))
+		// monotone lower bounds that keep digit counts honest: |p| >= |x| and |p| >= |y| when both non-zero
+		if xlo != nil && xlo.Sign() >= 0 && ylo != nil && ylo.Sign() >= 0 {
+			ex.assumeT(Implies(Le(IntConst64(1), y.T), Le(x.T, p)))
+			ex.assumeT(Implies(Le(IntConst64(1), x.T), Le(y.T, p)))
+		}
+	}
+	return IntV{T: p, Lo: lo, Hi: hi}
 }
